@@ -408,50 +408,58 @@ pub fn wblock_enc_words<const N: usize, E: Fn(u128) -> u128>(x: &[u128; N], e: E
     let mut r = *x;
     let mut i = 1;
     while i <= 2 * N {
-        // s <- r_1 ^ ... ^ r_{n-1}
-        let mut s = r[0];
-        let mut j = 1;
-        while j < N - 1 {
-            s ^= r[j];
-            j += 1;
-        }
-        // r* <- r* ^ belt-block(s) ^ <i>;  r <- ShLo^128(r);  r* <- s
-        let last = r[N - 1] ^ e(s) ^ (i as u128);
-        let mut nr = [0u128; N];
-        j = 0;
-        while j + 2 < N {
-            nr[j] = r[j + 1];
-            j += 1;
-        }
-        nr[N - 2] = last;
-        nr[N - 1] = s;
-        r = nr;
+        r = wblock_enc_round_words(&r, i, &e);
         i += 1;
     }
     r
+}
+/// One encryption round (counter i) on whole blocks as numbers.
+pub fn wblock_enc_round_words<const N: usize, E: Fn(u128) -> u128>(r: &[u128; N], i: usize, e: E) -> [u128; N] {
+    // s <- r_1 ^ ... ^ r_{n-1}
+    let mut s = r[0];
+    let mut j = 1;
+    while j < N - 1 {
+        s ^= r[j];
+        j += 1;
+    }
+    // r* <- r* ^ belt-block(s) ^ <i>;  r <- ShLo^128(r);  r* <- s
+    let last = r[N - 1] ^ e(s) ^ (i as u128);
+    let mut nr = [0u128; N];
+    j = 0;
+    while j + 2 < N {
+        nr[j] = r[j + 1];
+        j += 1;
+    }
+    nr[N - 2] = last;
+    nr[N - 1] = s;
+    nr
 }
 pub fn wblock_dec_words<const N: usize, E: Fn(u128) -> u128>(y: &[u128; N], e: E) -> [u128; N] {
     let mut r = *y;
     let mut i = 2 * N;
     while i >= 1 {
-        // s <- r*;  r <- ShHi^128(r);  r* <- r* ^ belt-block(s) ^ <i>;  r_1 <- s ^ r_2 ^ ... ^ r_{n-1}
-        let s = r[N - 1];
-        let mut nr = [0u128; N];
-        let mut j = 1;
-        while j < N {
-            nr[j] = r[j - 1];
-            j += 1;
-        }
-        nr[N - 1] ^= e(s) ^ (i as u128);
-        let mut r1 = s;
-        j = 1;
-        while j < N - 1 {
-            r1 ^= nr[j];
-            j += 1;
-        }
-        nr[0] = r1;
-        r = nr;
+        r = wblock_dec_round_words(&r, i, &e);
         i -= 1;
     }
     r
+}
+/// One decryption round (counter i) on whole blocks as numbers.
+pub fn wblock_dec_round_words<const N: usize, E: Fn(u128) -> u128>(r: &[u128; N], i: usize, e: E) -> [u128; N] {
+    // s <- r*;  r <- ShHi^128(r);  r* <- r* ^ belt-block(s) ^ <i>;  r_1 <- s ^ r_2 ^ ... ^ r_{n-1}
+    let s = r[N - 1];
+    let mut nr = [0u128; N];
+    let mut j = 1;
+    while j < N {
+        nr[j] = r[j - 1];
+        j += 1;
+    }
+    nr[N - 1] ^= e(s) ^ (i as u128);
+    let mut r1 = s;
+    j = 1;
+    while j < N - 1 {
+        r1 ^= nr[j];
+        j += 1;
+    }
+    nr[0] = r1;
+    nr
 }
